@@ -13,6 +13,16 @@ count / max_count / data argument per cycle):
 
 The statement says "ready only when" / "accepts only if": these are implications.  That fitting calls ARE accepted
 is covered existentially by the vacuity witnesses (full queue reached, exact-fit write accepted, pointer wrap-around).
+
+* BMC from reset: every call history up to K cycles (every subset of simultaneous calls, all arguments).
+* IND: one transition from any state (level, read/write (row, col) pointers, all memory rows, read-port registers)
+  satisfying the representation invariant `level <= depth, pointers in range, write position = read position + level
+  (mod depth) in row-major order with the column less significant, and (level != 0 -> the read-port register of column c
+  holds mem_c[row needed by the head window])`; the reference queue is the abstraction of the pre-state
+  (element k = cell at linear position read+k mod depth).  Proves the step obligations, preservation of the invariant
+  and that the post-state refines the reference's next queue, i.e. extends the BMC verdict to histories of any length
+  for that configuration.  Not every state satisfying the invariant is argued reachable, so `sat` is recorded as a
+  CTI (inconclusive), never as a violation.
 """
 import time
 import z3
@@ -22,14 +32,18 @@ from ..util import zx, slices, sel
 
 PROP = "C15"
 LEVEL = "model_checking"
-TECHNIQUE = "BMC from reset against a z3 queue reference; z3 QF_BV on the Amaranth netlist (one memory per column, rows explicit)"
+TECHNIQUE = "BMC from reset against a z3 queue reference + one-step induction with a representation invariant (row/column pointers, read-port registers); z3 QF_BV on the Amaranth netlist (one memory per column, rows explicit)"
 BOUNDS = {
     "quick": "(depth, read_width, write_width) in {(2,1,2), (4,2,2), (6,3,2), (6,2,3)}, with and without write_max_count, 2-bit elements, "
-             "BMC 8 cycles from reset, all subsets of simultaneous read/peek/write/clear calls, all count/max_count/data arguments",
+             "BMC 8 cycles from reset (7 for (6,2,3)), all subsets of simultaneous read/peek/write/clear calls, all count/max_count/data arguments; "
+             "one-step induction for these shapes and (6,3,3), (8,2,2)",
     "thorough": "every (depth <= 8, read_width <= 3, write_width <= 3) with depth a multiple of max(read_width, write_width), with and without "
-                "write_max_count, 2-bit elements, BMC 12 cycles from reset; (4,2,2) and (6,3,2) also with 3-bit elements",
+                "write_max_count, 2-bit elements: BMC 12 cycles from reset, except (6,2,2): 11, (8,2,2) and (6,3,2): 10, (6,2,3) and (6,3,3): 9 "
+                "(smaller than the planned 12: solver time grows 2-3x per cycle for shapes with several rows and columns; (6,3,3) exceeds 7 min at 12), "
+                "plus one-step induction for every one of these configurations (closes: unbounded histories per configuration); "
+                "(4,2,2) BMC 12 and (6,3,2) BMC 9 also with 3-bit elements; induction only for (12,3,2), (16,2,2), (12,2,3)",
 }
-OUTSIDE = ["histories longer than the BMC bound", "depths/widths/shapes not enumerated",
+OUTSIDE = ["histories longer than the BMC bound where the inductive step is not run or not closed", "depths/widths/shapes not enumerated",
            "write calls with count > write_width or (write_max_count) count > max_count: outside the documented argument domain",
            "that read/peek/write are ready whenever they could be (the statement only bounds readiness from above); witnessed, not proved",
            "several simultaneous callers of the nonexclusive peek/clear"]
@@ -49,22 +63,37 @@ def make(cfg):
     return Harness(d, dict(read=d.read, peek=d.peek, write=d.write, clear=d.clear))
 
 
+def _bmc_k(depth, rw, ww):
+    """BMC depth of the thorough tier: 12 cycles where the query stays below ~1 min of solver time, fewer for the shapes with
+    several rows AND several columns on both sides (measured: the cost grows ~1.7x per cycle; (6,3,3) needs >7 min at 12)."""
+    if min(rw, ww) == 1 or depth <= 4:
+        return 12
+    return {(6, 2, 2): 11, (8, 2, 2): 10, (6, 3, 2): 10, (6, 2, 3): 9, (6, 3, 3): 9}[(depth, rw, ww)]
+
+
 def configs(tier, seed):
     out = []
     if tier == "quick":
         for depth, rw, ww in ((2, 1, 2), (4, 2, 2), (6, 3, 2), (6, 2, 3)):
             for mc in (False, True):
-                out.append(dict(depth=depth, rw=rw, ww=ww, mc=mc, width=2, K=8))
+                out.append(dict(depth=depth, rw=rw, ww=ww, mc=mc, width=2, K=8 if (rw, ww) != (2, 3) else 7, mode="bmc"))
+        for depth, rw, ww in ((2, 1, 2), (4, 2, 2), (6, 3, 2), (6, 2, 3), (6, 3, 3), (8, 2, 2)):
+            for mc in (False, True):
+                out.append(dict(depth=depth, rw=rw, ww=ww, mc=mc, width=2, mode="ind"))
     else:
         for rw in (1, 2, 3):
             for ww in (1, 2, 3):
                 col = max(rw, ww)
                 for depth in range(col, 9, col):
                     for mc in (False, True):
-                        out.append(dict(depth=depth, rw=rw, ww=ww, mc=mc, width=2, K=12))
+                        out.append(dict(depth=depth, rw=rw, ww=ww, mc=mc, width=2, K=_bmc_k(depth, rw, ww), mode="bmc"))
+                        out.append(dict(depth=depth, rw=rw, ww=ww, mc=mc, width=2, mode="ind"))
         for depth, rw, ww in ((4, 2, 2), (6, 3, 2)):
-            out.append(dict(depth=depth, rw=rw, ww=ww, mc=True, width=3, K=12))
-        out.sort(key=lambda c: -c["depth"] * (c["rw"] + c["ww"]))  # long jobs first
+            out.append(dict(depth=depth, rw=rw, ww=ww, mc=True, width=3, K=_bmc_k(depth, rw, ww) - (1 if depth == 6 else 0), mode="bmc"))
+            out.append(dict(depth=depth, rw=rw, ww=ww, mc=True, width=3, mode="ind"))
+        for depth, rw, ww in ((12, 3, 2), (16, 2, 2), (12, 2, 3)):  # induction only: more rows
+            out.append(dict(depth=depth, rw=rw, ww=ww, mc=True, width=2, mode="ind"))
+        out.sort(key=lambda c: (c["mode"] != "bmc", -c["depth"] * (c["rw"] + c["ww"]) * (1 if min(c["rw"], c["ww"]) > 1 else 0)))  # long jobs first
     return out
 
 
